@@ -58,7 +58,33 @@ import (
 //
 // Branches on p become F.ite; loops over tables are unrolled; everything else is computed.
 // The statements after an if/switch are translated once per branch, as before; branches
-// that both fall through are merged only at the end of a loop iteration.
+// that both fall through are merged at the end of a loop iteration when all their variables
+// can be merged (booleans: if-then-else), and otherwise stay FORKED, so that loop counters,
+// search bounds and indices are concrete on every path (a binary search over a table of
+// n ranges has n+1 paths).  At most 4096 forks per function.
+//
+// Further forms (second round):
+//
+//	values ::= … | T.m (method expression) | v.m (method value, receiver bound) | f
+//	        (function of the package) as arguments and variables; variadic functions;
+//	        `if c then a else b` of two different concrete values of one type (vCase: the
+//	        -1/0/+1 of a three-way comparison, an index returned by a search): every
+//	        operator, conversion, field selection, index and call is applied arm by arm,
+//	        and comparisons of it with constants are formulas again
+//	stdlib ::= slices, sort, cmp are EXECUTED FROM THE SOURCE of the toolchain that builds
+//	        the repository (stdsrc.go): slices.BinarySearchFunc/BinarySearch/IndexFunc/
+//	        ContainsFunc/Contains/Index…, sort.Search/Find, cmp.Compare/Less, generic bodies
+//	        included; bytes.Compare, slices.Sort/SortFunc/SortStableFunc and
+//	        sort.Slice/SliceStable are modelled (symexec.go), min/max/make/copy are built in
+//	init  ::= while a package-level initialiser is evaluated nothing is symbolic and slices
+//	        are references as in Go (element writes, append within the capacity, copy, in-place
+//	        sorting and merging, re-slicing up to the capacity); a finished initialiser's
+//	        tables are frozen.  A slice-typed table may be mentioned only in code the
+//	        executor runs, or under len/cap/range/index (checkAliases).
+//	paths ::= every condition is simplified under what the path already assumes (texts of
+//	        earlier conditions and their and/or/not parts; per byte of p an interval and
+//	        known bits derived from the assumed atoms); a branch no address can reach is
+//	        not executed.
 //
 // Subset of the dispatchers (param a of type netip.Addr):
 //
@@ -87,6 +113,7 @@ type subnetsTr struct {
 	order   []string
 	pending map[string]bool
 	sx      *sx
+	repo    string
 }
 
 func (t *subnetsTr) errf(n ast.Node, format string, a ...any) error {
@@ -101,12 +128,47 @@ const (
 	fFF = "F.ff"
 )
 
-func fAtom(i, m, v int64) string { return fmt.Sprintf("(F.atom %d %d %d)", i, m, v) }
-func fGe(i, c int64) string      { return fmt.Sprintf("(F.ge %d %d)", i, c) }
-func fAnd(a, b string) string    { return "(F.and " + a + " " + b + ")" }
-func fOr(a, b string) string     { return "(F.or " + a + " " + b + ")" }
-func fIte(c, a, b string) string { return "(F.ite " + c + " " + a + " " + b + ")" }
-func fNot(a string) string       { return fIte(a, fFF, fTT) }
+func fAtom(i, m, v int64) string {
+	s := fmt.Sprintf("(F.atom %d %d %d)", i, m, v)
+	fstruct[s] = fnode{op: 'a', i: int(i), m: int(m), v: int(v)}
+	return s
+}
+
+func fGe(i, c int64) string {
+	s := fmt.Sprintf("(F.ge %d %d)", i, c)
+	fstruct[s] = fnode{op: 'g', i: int(i), v: int(c)}
+	return s
+}
+
+// fnode records how a formula text was built (op '&', '|', '?' with the operand texts;
+// 'a' = atom i m v, 'g' = ge i v), so that path conditions can be decomposed and formulas
+// pruned without parsing the text back.
+type fnode struct {
+	op      byte
+	a, b, c string
+	i, m, v int
+}
+
+var fstruct = map[string]fnode{}
+
+func fAnd(a, b string) string {
+	s := "(F.and " + a + " " + b + ")"
+	fstruct[s] = fnode{op: '&', a: a, b: b}
+	return s
+}
+
+func fOr(a, b string) string {
+	s := "(F.or " + a + " " + b + ")"
+	fstruct[s] = fnode{op: '|', a: a, b: b}
+	return s
+}
+
+func fIte(c, a, b string) string {
+	s := "(F.ite " + c + " " + a + " " + b + ")"
+	fstruct[s] = fnode{op: '?', a: c, b: a, c: b}
+	return s
+}
+func fNot(a string) string { return fIte(a, fFF, fTT) }
 
 // byteFunc translates the [N]byte predicate called name with the symbolic executor of
 // symexec.go (memoised; predicates it calls on the same array come first).
@@ -148,7 +210,8 @@ func (t *subnetsTr) byteFunc(name string) error {
 	// the executor's state belongs to the function being translated
 	saveP, saveN, saveS := x.param, x.n, x.stack
 	x.param, x.n, x.stack = sig.Params().At(0), n, nil
-	res, err := x.call(fb, nil, []value{arg}, fd)
+	x.forks = 0
+	res, err := x.call(fb, nil, []value{arg}, fd, nil)
 	x.param, x.n, x.stack = saveP, saveN, saveS
 	if err != nil {
 		return err
@@ -464,7 +527,7 @@ func genSubnets(repo string) (string, error) {
 		return "", err
 	}
 	t := &subnetsTr{fset: fset, decls: map[string]*ast.FuncDecl{}, done: map[string]string{},
-		width: map[string]int{}, pending: map[string]bool{}}
+		width: map[string]int{}, pending: map[string]bool{}, repo: repo}
 	for _, f := range files {
 		for _, d := range f.Decls {
 			fd, ok := d.(*ast.FuncDecl)
@@ -498,6 +561,9 @@ func genSubnets(repo string) (string, error) {
 			return "", err
 		}
 		disp = append(disp, d)
+	}
+	if err := t.sx.checkAliases(); err != nil {
+		return "", err
 	}
 	for _, n := range t.order {
 		pos := t.fset.Position(t.decls[n].Pos())
